@@ -296,6 +296,41 @@ def end_tasks(tier, role, what=('routing', 'batching')):
 
 # ------------------------------------------------------------------------------------ route (C09)
 
+def _native_route(ex, nroutes, data, preds):
+    """public-API replay (kind `pipe_route`): the real job stream_iter(items).route()...build(), every route collected;
+    batch mode / control elements are not reproduced, only which element reaches which route"""
+    from mirsym.executor import RustPanic
+    items, want = [], {r: [] for r in range(nroutes)}
+    for d in data:
+        x = hlib.concrete_int(ex, d)
+        mask, first = 0, None
+        for r in range(nroutes):
+            if ex.branch(preds[r](d.z()), 'oracle: predicate %d' % r):
+                mask |= 1 << r
+                if first is None:
+                    first = r
+        items += [x, mask]
+        if first is not None:
+            want[first].append(x)
+    runner, prof = ex.env['native']
+    ex.env['native_used'] = True
+    txt = runner('pipe_route', [1, nroutes, len(data)] + items)[prof]
+    ex.env['native_out'] = txt
+    if txt == 'PANIC':
+        raise RustPanic('the real route job panicked on this input')
+    if txt.startswith(('BADARGS', 'UNKNOWN', 'NORESULT', 'TIMEOUT')):
+        raise Unsupported('native driver: ' + txt)
+    got = {}
+    for part in txt.split('|'):
+        name, _, vals = part.strip().partition(':')
+        got[int(name.strip()[1:])] = sorted(int(v) for v in vals.split() if v != '-')
+    for r in range(nroutes):
+        if got.get(r) != sorted(want[r]):
+            raise Violation('route %d received %s, expected %s (native job output: %s)' % (r, got.get(r), sorted(want[r]), txt),
+                            hlib._wit(ex))
+    return {'native': txt}
+
+
 def route_harness(w, nroutes, mode, bsize, iters, max_len):
     from mirsym.values import FnItem
     rnew = w.impls[(None, 'RoutingEnd')]['new'][0]
@@ -304,12 +339,28 @@ def route_harness(w, nroutes, mode, bsize, iters, max_len):
     bnew = w.impls[(None, 'Batcher')]['new'][0]
     hlib.check_se_table(w)
     ns = dict(w.src.enum_variants('NextStrategy'))
-    preds = [z3.Function('route_pred_%d' % r, z3.BitVecSort(64), z3.BoolSort()) for r in range(nroutes)]
 
     def h(ex):
         own = hlib.coord(w, 1, 0, 0)
         script = hlib.gen_script(ex, iters, max_len, 'ITW', ts_span=(1000, 6),
                                  payload=lambda ex, k: ex.fresh_int('u64', 'x%d' % k))
+        # the predicates are arbitrary functions of the element: one symbolic boolean per (route, data element),
+        # equal elements get equal answers (these are inputs, so a witness pins them for the native replay)
+        data = [el.fields[0] for el in script if el.variant in ('Item', 'Timestamped')]
+        pb = [[ex.fresh_bool('pred%d_x%d' % (r, k)) for k in range(len(data))] for r in range(nroutes)]
+        for r in range(nroutes):
+            for i in range(len(data)):
+                for j in range(i + 1, len(data)):
+                    ex.assume(z3.Implies(data[i].z() == data[j].z(), pb[r][i] == pb[r][j]))
+
+        def pred(r, x):
+            for k, d in enumerate(data):
+                if d.z().eq(x):
+                    return pb[r][k]
+            raise Unsupported('route predicate applied to an unknown element')
+        preds = [(lambda x, r=r: pred(r, x)) for r in range(nroutes)]
+        if ex.env.get('native'):
+            return _native_route(ex, nroutes, data, preds)
         routes = VecModel([Agg('tuple', None, [Int('u64', 10 + r),
                                                Agg('struct', 'FilterFn', [FnItem('pred%d' % r, py=(lambda ex_, item, r=r: preds[r](deref(item).z())))], None)])
                            for r in range(nroutes)])
